@@ -407,6 +407,7 @@ func gen(r *Rng, tier string, emit Emit) {
 			emit("C", "saveclass", H(m))
 		}
 	}
+	genAudit(r.Fork(0xA0D17), tier, modelMax, emit)
 }
 
 func main() {
